@@ -79,10 +79,11 @@ def infer_redirection(url, recursive=True):
                 else:
                     target = urljoin("http://" + url, potential_target)[7:]
 
-                    # NOTE: a hint sitting in the host ("a.com&url=/x") joins
-                    # to the very same url
-                    if target == url:
-                        return url
+                # NOTE: a target joins to something shorter than the url it was
+                # found in, or it is not one: "//" (no host) joins to the url
+                # itself, or to the url plus its own fragment, forever
+                if len(target) >= len(url):
+                    return url
 
             # Idiotic youtube redirections
             elif "youtube.com/redirect?" in url:
